@@ -221,7 +221,7 @@ def h_analyze_history(n: int, e1: int, t1: int, e2: int, t2: int, e3: int, t3: i
     """
     hist = [(_real(e, len(EXTS)), _real(t, len(TEXTS))) for e, t in [(e1, t1), (e2, t2), (e3, t3)]][:_real(n - 1, 3) + 1]
     res, alone = _analyze_history(hist)
-    return fin(res == alone, n == 3)
+    return fin(res == alone, n >= 2)
 
 
 def real_h_analyze_history(n, e1, t1, e2, t2, e3, t3):
